@@ -21,6 +21,9 @@ __CPROVER_assigns(tok[solution], tok[residual])
 __CPROVER_assigns(__CPROVER_object_upto(&tok[HV(level_depth + 1, V_SOLUTION)], (MAXL - level_depth - 1) * sizeof(tok_t)))
 __CPROVER_assigns(__CPROVER_object_upto(&tok[HV(level_depth + 1, V_RESIDUAL)], (MAXL - level_depth - 1) * sizeof(tok_t)))
 __CPROVER_assigns(__CPROVER_object_upto(&tok[HV(level_depth + 1, V_ERROR_CORRECTION)], (MAXL - level_depth - 1) * sizeof(tok_t)))
+/* (0) functional specification: the result is MG(kind, depth, iterate, rhs) -- the textbook recursion, a function of
+       the iterate and the right-hand side ONLY (no scratch vector of any level enters) */
+__CPROVER_ensures(tok[solution] == MG(@KIND@, level_depth, __CPROVER_old(tok[solution]), __CPROVER_old(tok[rhs])))
 /* (1) started from the exact discrete solution the cycle returns it unchanged -- any smoothing counts, any depth,
        any content of every scratch vector */
 __CPROVER_ensures(!FIX(level_depth, __CPROVER_old(tok[solution]), __CPROVER_old(tok[rhs])) ||
@@ -37,19 +40,44 @@ STD_PROLOGUE = r"""
     const _Bool g_fix = FIX(level_depth, g_u0, g_f0);
     const _Bool g_two = (pre_smoothing_steps_ <= 0 && post_smoothing_steps_ <= 0 && level_depth + 1 == number_of_levels_ - 1);
     const tok_t g_cgc = ADD(g_u0, PROL(level_depth + 1, SOLVE(level_depth + 1, RESTR(level_depth, RESID(level_depth, g_f0, g_u0)))));
+    /* definition of MG(kind, depth, u, f), unfolded once at this instance (ghost arrays g_pre / g_post hold the iterates of
+       the two smoothing loops: g_x[i+1] = SMOOTH(g_x[i]) is added instance-wise inside the loops) */
+    const int g_npre = pre_smoothing_steps_ < 0 ? 0 : pre_smoothing_steps_;
+    const int g_npost = post_smoothing_steps_ < 0 ? 0 : post_smoothing_steps_;
+    __CPROVER_assume(g_pre[0] == g_u0);
+    const tok_t g_rr = RESTR(level_depth, RESID(level_depth, g_f0, g_pre[g_npre]));
+    const tok_t g_e = (level_depth + 1 == number_of_levels_ - 1) ? SOLVE(level_depth + 1, g_rr) : @REC@;
+    __CPROVER_assume(g_post[0] == ADD(g_pre[g_npre], PROL(level_depth + 1, g_e)));
+    __CPROVER_assume(MG(@KIND@, level_depth, g_u0, g_f0) == g_post[g_npost]);
+"""
+REC = {"multigrid_V_Cycle": "MG(0, level_depth + 1, ZERO, g_rr)",
+       "multigrid_W_Cycle": "MG(1, level_depth + 1, MG(1, level_depth + 1, ZERO, g_rr), g_rr)",
+       "multigrid_F_Cycle": "MG(0, level_depth + 1, MG(2, level_depth + 1, ZERO, g_rr), g_rr)"}
+KIND = {"multigrid_V_Cycle": "0", "multigrid_W_Cycle": "1", "multigrid_F_Cycle": "2"}
+MG_DEFS = r"""
+/* functional specification of the standard cycles: MG(kind, depth, iterate, rhs); kind 0 = V, 1 = W, 2 = F */
+tok_t __CPROVER_uninterpreted_MG(int kind, int depth, tok_t u, tok_t f);
+#define MG __CPROVER_uninterpreted_MG
+tok_t __CPROVER_uninterpreted_EMG(int kind, tok_t u, tok_t f0, tok_t f1, _Bool full_grid_smoothing);
+#define EMG __CPROVER_uninterpreted_EMG
+tok_t g_pre[__CPROVER_constant_infinity_uint], g_post[__CPROVER_constant_infinity_uint];   /* ghost */
 """
 PRE_LOOP = r"""
     __CPROVER_assigns(i, tok[solution], tok[residual])
     __CPROVER_loop_invariant(0 <= i && (i <= pre_smoothing_steps_ || pre_smoothing_steps_ < 0))
     __CPROVER_loop_invariant(!g_fix || tok[solution] == g_u0)
     __CPROVER_loop_invariant(i > 0 || tok[solution] == g_u0)
+    __CPROVER_loop_invariant(tok[solution] == g_pre[i])
     __CPROVER_decreases(pre_smoothing_steps_ - i)
 """
+PRE_GHOST = "        __CPROVER_assume(g_pre[i + 1] == SMOOTH(level_depth, g_pre[i], g_f0));   /* ghost: definition of g_pre */"
+POST_GHOST = "        __CPROVER_assume(g_post[i + 1] == SMOOTH(level_depth, g_post[i], g_f0));   /* ghost: definition of g_post */"
 POST_LOOP = r"""
     __CPROVER_assigns(i, tok[solution], tok[residual])
     __CPROVER_loop_invariant(0 <= i && (i <= post_smoothing_steps_ || post_smoothing_steps_ < 0))
     __CPROVER_loop_invariant(!g_fix || tok[solution] == g_u0)
     __CPROVER_loop_invariant(!g_two || tok[solution] == g_cgc)
+    __CPROVER_loop_invariant(@POSTINV@)
     __CPROVER_decreases(post_smoothing_steps_ - i)
 """
 
@@ -68,6 +96,7 @@ __CPROVER_assigns(tok[solution], tok[residual])
 __CPROVER_assigns(__CPROVER_object_upto(&tok[HV(level_depth + 1, V_SOLUTION)], (MAXL - level_depth - 1) * sizeof(tok_t)))
 __CPROVER_assigns(__CPROVER_object_upto(&tok[HV(level_depth + 1, V_RESIDUAL)], (MAXL - level_depth - 1) * sizeof(tok_t)))
 __CPROVER_assigns(__CPROVER_object_upto(&tok[HV(level_depth + 1, V_ERROR_CORRECTION)], (MAXL - level_depth - 1) * sizeof(tok_t)))
+__CPROVER_ensures(tok[solution] == EMG(@KIND@, __CPROVER_old(tok[solution]), __CPROVER_old(tok[rhs]), __CPROVER_old(tok[HV(1, V_RHS)]), full_grid_smoothing_))
 __CPROVER_ensures(!EXFIX(__CPROVER_old(tok[solution]), __CPROVER_old(tok[rhs]), __CPROVER_old(tok[HV(1, V_RHS)])) ||
                   tok[solution] == __CPROVER_old(tok[solution]))
 __CPROVER_ensures(!(pre_smoothing_steps_ <= 0 && post_smoothing_steps_ <= 0 && level_depth + 1 == number_of_levels_ - 1) ||
@@ -85,7 +114,23 @@ EXT_PROLOGUE = r"""
     const _Bool g_fix = EXFIX(g_u0, g_f0, g_f1);
     const _Bool g_two = (pre_smoothing_steps_ <= 0 && post_smoothing_steps_ <= 0 && level_depth + 1 == number_of_levels_ - 1);
     const tok_t g_cgc = ADD(g_u0, EXPROL(1, SOLVE(1, EXCOMB(g_u0, g_f0, g_f1))));
+    /* definition of EMG(kind, u, f0, f1, full_grid_smoothing), unfolded once */
+    const int g_npre = pre_smoothing_steps_ < 0 ? 0 : pre_smoothing_steps_;
+    const int g_npost = post_smoothing_steps_ < 0 ? 0 : post_smoothing_steps_;
+    __CPROVER_assume(g_pre[0] == g_u0);
+    const tok_t g_rr = EXCOMB(g_pre[g_npre], g_f0, g_f1);
+    const tok_t g_e = (level_depth + 1 == number_of_levels_ - 1) ? SOLVE(level_depth + 1, g_rr) : @REC@;
+    __CPROVER_assume(g_post[0] == ADD(g_pre[g_npre], EXPROL(level_depth + 1, g_e)));
+    __CPROVER_assume(EMG(@KIND@, g_u0, g_f0, g_f1, full_grid_smoothing_) == g_post[g_npost]);
 """
+EXT_PRE_GHOST = "        __CPROVER_assume(g_pre[i + 1] == (full_grid_smoothing_ ? SMOOTH(0, g_pre[i], g_f0) : EXSMOOTH(0, g_pre[i], g_f0)));"
+EXT_POST_GHOST = "        __CPROVER_assume(g_post[i + 1] == (full_grid_smoothing_ ? SMOOTH(0, g_post[i], g_f0) : EXSMOOTH(0, g_post[i], g_f0)));"
+EXT_KIND = {"implicitlyExtrapolatedMultigrid_V_Cycle": "0", "implicitlyExtrapolatedMultigrid_W_Cycle": "1",
+            "implicitlyExtrapolatedMultigrid_F_Cycle": "2"}
+EXT_REC = {k: v.replace("level_depth + 1", "1") for k, v in
+           (("implicitlyExtrapolatedMultigrid_V_Cycle", "MG(0, level_depth + 1, ZERO, g_rr)"),
+            ("implicitlyExtrapolatedMultigrid_W_Cycle", "MG(1, level_depth + 1, MG(1, level_depth + 1, ZERO, g_rr), g_rr)"),
+            ("implicitlyExtrapolatedMultigrid_F_Cycle", "MG(0, level_depth + 1, MG(2, level_depth + 1, ZERO, g_rr), g_rr)"))}
 
 
 STATE_SETUP = r"""
@@ -101,9 +146,10 @@ MAXL = 8
 
 def build_jobs(tier, seed):
     rules, hashes = Rules("C10"), {}
-    pre = layert.prelude(MAXL) + EXT_DEFS
+    pre = layert.prelude(MAXL) + EXT_DEFS + MG_DEFS
     ops = layert.parse_contract_decls(pre)
-    std_c, ext_c = layert.parse_contract(STD_CONTRACT), layert.parse_contract(EXT_CONTRACT)
+    ext_c = None
+    std_c = None
     jobs = []
     for n in STD + EXT:
         c = [pre]
@@ -111,8 +157,17 @@ def build_jobs(tier, seed):
             c.append(layert.contract_stub(o, params, con))
         # every cycle function a body may call is present as its contract (recursion is closed by the same contract)
         for m in STD:
-            c.append(layert.contract_stub(m, CYCLE_PARAMS, std_c))
-        body = layert.extract_cycle(n, rules, hashes, "", STD_PROLOGUE if n in STD else EXT_PROLOGUE, [PRE_LOOP, POST_LOOP])
+            c.append(layert.contract_stub(m, CYCLE_PARAMS, layert.parse_contract(STD_CONTRACT.replace("@KIND@", KIND[m]))))
+        if n in STD:
+            prol = STD_PROLOGUE.replace("@KIND@", KIND[n]).replace("@REC@", REC[n])
+            loops = [(PRE_LOOP.replace("tok[solution] == g_pre[i]", "tok[solution] == g_pre[i]"), PRE_GHOST),
+                     (POST_LOOP.replace("@POSTINV@", "tok[solution] == g_post[i]"), POST_GHOST)]
+            std_c = layert.parse_contract(STD_CONTRACT.replace("@KIND@", KIND[n]))
+        else:
+            prol = EXT_PROLOGUE.replace("@KIND@", EXT_KIND[n]).replace("@REC@", EXT_REC[n])
+            loops = [(PRE_LOOP, EXT_PRE_GHOST), (POST_LOOP.replace("@POSTINV@", "tok[solution] == g_post[i]"), EXT_POST_GHOST)]
+            ext_c = layert.parse_contract(EXT_CONTRACT.replace("@KIND@", EXT_KIND[n]))
+        body = layert.extract_cycle(n, rules, hashes, "", prol, loops)
         body = body.replace("void %s(" % n, "void %s__impl(" % n, 1)
         c.append(body)
         c.append(layert.enforce_harness(n, CYCLE_PARAMS, std_c if n in STD else ext_c, STATE_SETUP))
